@@ -1,6 +1,7 @@
 SPECIFICATION Spec
 CONSTANTS
   FullWidthPad = FALSE
+  WsIgnored = TRUE
   EReps = {1, 1025}
   CovReps = {3}
   VReps = {1, 3}
@@ -11,5 +12,7 @@ CONSTANTS
   ERowReps = {1}
   VRowReps = {1, 3}
   MaxArea = 4194304
-INVARIANTS ColsAgree PendingOnlyEmpty Incremental Refines Dump
+  WsNames = {}
+  PwNames = {""}
+INVARIANTS ColsAgree PendingOnlyEmpty NoError Incremental Refines Dump
 CHECK_DEADLOCK FALSE
